@@ -98,7 +98,7 @@ def run_tree(acc, st, case, scenario, k, start_rows, overwrite, Tm):
     D = Tm.shape[0]
     n = st.num_visible
     space = tbits(n)
-    rows = len(start_rows) if start_rows is not None else 1
+    rows = len(start_rows) if start_rows is not None else (2 if scenario == "random-start-2" else 1)
     law = np.zeros([D] * rows)
     stats = T.Stats()
     flags = []
@@ -117,6 +117,9 @@ def run_tree(acc, st, case, scenario, k, start_rows, overwrite, Tm):
             elif scenario == "random-start":
                 start = keep = None
                 r = st.sample(k=k, num_samples=1)
+            elif scenario == "random-start-2":
+                start = keep = None
+                r = st.sample(k=k, num_samples=2)
             elif scenario == "continued":
                 start = space[start_rows].clone()
                 keep = start.clone()
@@ -162,6 +165,9 @@ def expected_law(Tm, scenario, k, start_rows):
     D = Tm.shape[0]
     if scenario == "random-start":
         return (np.ones(D) / D) @ np.linalg.matrix_power(Tm, k)
+    if scenario == "random-start-2":
+        one = (np.ones(D) / D) @ np.linalg.matrix_power(Tm, k)
+        return np.multiply.outer(one, one)
     kk = sum(k) if scenario == "continued" else k
     Tk = np.linalg.matrix_power(Tm, kk)
     out = Tk[start_rows[0]]
@@ -207,6 +213,9 @@ def run_tree_item(acc, item):
     else:
         D = 2 ** arch[0]
         tree_case(acc, case, "random-start", 1, None, None)
+        tree_case(acc, case, "random-start", 0, None, None)
+        if 2 ** (2 * sum(arch)) * 4 ** arch[0] <= 5000:
+            tree_case(acc, case, "random-start-2", 1, None, None)
         if K >= 2 and sum(arch) <= 5:
             tree_case(acc, case, "random-start", 2, None, None)
         # two-row batches: the law must factorise (no cross-row leakage through shared buffers)
